@@ -27,6 +27,7 @@ EVIDENCE_DIR = os.path.join(_OUT, "evidence")
 KNOWN_FINDINGS = os.path.join(VERIF_DIR, "known_findings.json")
 CHECK = os.path.join(VERIF_DIR, "check")
 REPLAY_FORMAT = 1
+LOCK_SEAM_REFS = 0
 
 EXIT_OK, EXIT_VIOLATION, EXIT_HARNESS, EXIT_INCONCLUSIVE = 0, 1, 2, 3
 
@@ -42,6 +43,13 @@ def bootstrap_import() -> None:
     rp = repo_path()
     if sys.path[0] != rp:
         sys.path.insert(0, rp)
+    # stdlib/dependency modules the library uses are imported first so that their own locks stay real;
+    # then markdown_it is imported behind the scheduler's lock seam (DESIGN.md section 3, "Locks")
+    import argparse, collections, contextlib, dataclasses, functools, html, inspect, logging, re  # noqa: F401,E401
+    import textwrap, typing, urllib.parse, warnings, pathlib, mdurl  # noqa: F401,E401
+    from . import sched
+    global LOCK_SEAM_REFS
+    LOCK_SEAM_REFS = sched.import_library_with_lock_seam()
     import markdown_it  # noqa: F401
 
     f = os.path.realpath(markdown_it.__file__)
